@@ -5,7 +5,7 @@ import json
 from pathlib import Path
 
 V = Path(__file__).resolve().parents[1]
-res = json.loads((V / "reports" / "selftest.json").read_text())
+res = json.loads((V / "reports" / "selftest_full.json").read_text())
 for r in res["seeded"]:
     mp = V / "seeded" / r["seed"] / "meta.json"
     m = json.loads(mp.read_text())
